@@ -212,6 +212,7 @@ class Program:
 
     def _load(self):
         seen = set()
+        self._prescan_helpers()
         for root in self.ROOTS:
             top = os.path.join(self.repo, root)
             if not os.path.isdir(top):
@@ -234,6 +235,32 @@ class Program:
         for rel, src in self.overlay.items():
             if rel not in seen:
                 self.modules[rel] = Module(rel, src)
+
+    def _prescan_helpers(self):
+        """assert-like helpers (`_require(cond, msg)`) are recognised before any module is normalised, so that a module which imports
+        one from a sibling that happens to be loaded later reads its calls as asserts too"""
+        from .normalise import _require_helpers, GLOBAL_HELPERS
+        for root in self.ROOTS:
+            top = os.path.join(self.repo, root)
+            if not os.path.isdir(top):
+                continue
+            for dp, dns, fns in os.walk(top):
+                dns[:] = sorted(d for d in dns if d not in ("tests", "__pycache__", "support_files"))
+                for fn in sorted(fns):
+                    if not fn.endswith(".py"):
+                        continue
+                    rel = os.path.relpath(os.path.join(dp, fn), self.repo)
+                    if rel in self.overlay:
+                        src = self.overlay[rel]
+                    else:
+                        with open(os.path.join(dp, fn), encoding="utf-8") as fh:
+                            src = fh.read()
+                    if "AssertionError" not in src:
+                        continue
+                    try:
+                        GLOBAL_HELPERS.update(_require_helpers(ast.parse(src)))
+                    except SyntaxError:
+                        pass
 
     def _splice_eager_generators(self):
         """`self._xs = list(self._surviving(excluded))`: a private generator helper consumed on the spot is spliced into its caller
